@@ -35,7 +35,8 @@ from ttconv.time_code import ClockTime
 class SrtParagraph:
   """SRT paragraph definition class"""
 
-  _EOL_SEQ_RE = re.compile(r"\n{2,}")
+  # CR LF, LF and CR all terminate a line
+  _EOL_SEQ_RE = re.compile(r"[\r\n]+")
 
   def __init__(self, identifier: int):
     self._id: int = identifier
